@@ -23,6 +23,7 @@ PLUGINS = {
     "C07": "harness.plug_query:C07",
     "C08": "harness.plug_query:C08",
     "C15": "harness.plug_refs:C15",
+    "C16": "harness.plug_bulk:C16",
     "C17": "harness.plug_resolver:C17",
     "C18": "harness.plug_mapping:C18",
     "C19": "harness.plug_discover:C19",
